@@ -259,9 +259,11 @@ def ref_unit(name, bf, fb, nb, dynamic, tier):
     checks += [Check('base_set', 'h_base_set', enforce='base_set', replace=[d + '_set_unsafe'], inputs=('value',)),
                Check('base_assign', 'h_base_assign', enforce='base_assign', replace=['base_set'])]
     for op in ('op_inc', 'op_dec', 'op_pluseq', 'op_minuseq', 'op_muleq', 'op_diveq'):
-        hard = op in ('op_muleq', 'op_diveq') and nb >= 12      # 16-bit symbolic multiply / divide: minutes on SAT
+        hard = op in ('op_muleq', 'op_diveq') and nb >= 12      # >= 12-bit symbolic multiply / divide: out of reach of SAT and of z3 4.8 / cvc5 through cbmc (900 s and 1800 s time-outs)
+        if hard:
+            continue                                            # not registered (an undecided check may not stand in a registered command); listed under not_covered
         checks.append(Check(op, 'h_' + op, enforce=op, replace=['base_set', d + '_get'], inputs=('v',),
-                            tier='thorough' if hard else 'quick', timeout=1800 if hard else None))
+                            tier='thorough' if hard else 'quick', timeout=900 if hard else None, flags=['--z3'] if hard else ()))
     checks.append(Check('lemma_readback', 'h_readback', engine='D', inputs=('value', 'first_bit', 'buf[1]', 'buf[2]'),
                         flags=['--unwind', '11', '--unwinding-assertions']))
     macros = {'T_BF': bf, 'NB': str(nb), 'FB': str(fb), 'DYNAMIC': '1' if dynamic else '0'}
@@ -290,6 +292,7 @@ for (n, bf, nb, t) in DY_INSTS:
 UNITS += bits.units('C08')
 
 META = dict(
-    not_covered=['swap / whole-pixel assignment / fill / copy through bit-aligned iterators as template drivers: they reduce to the per-channel write contract and the bit cursor contract proved here; the template plumbing (static_for_each, swap_proxy) is not extracted',
+    not_covered=['proxy operator*= and operator/= on bit fields of 12 bits or more (symbolic multiply / divide of that width times out on every installed back end); proved for fields up to 11 bits',
+                 'swap / whole-pixel assignment / fill / copy through bit-aligned iterators as template drivers: they reduce to the per-channel write contract and the bit cursor contract proved here; the template plumbing (static_for_each, swap_proxy) is not extracted',
                  'BOOST_GIL_CONFIG_HAS_UNALIGNED_ACCESS builds (macro undefined in the suite configuration)'],
 )
